@@ -22,14 +22,14 @@ REQUIRED = {
     "quick": {"evaluations/FCNAgent": 1500, "evaluations/MarketShareFCNAgent": 500, "evaluations/MarketMakerAgent": 800,
               "evaluations/ArbitrageAgent": 400, "class/fcn_buy": 400, "class/fcn_sell": 400,
               "class/fcn_normal_margin": 300, "class/mm_base_from_quotes": 200, "class/mm_base_from_market_price": 100,
-              "class/arb_inside_threshold": 150, "class/arb_outside_threshold_index_cheap": 55,
+              "class/arb_inside_threshold": 150, "class/arb_gap_equals_threshold": 25, "class/arb_outside_threshold_index_cheap": 55,
               "class/arb_outside_threshold_index_rich": 55, "class/arb_near_threshold": 100,
               "orders_checked_wellformed": 3000, "class/share_choice_checked": 300},
     "thorough": {"evaluations/FCNAgent": 60000, "evaluations/MarketShareFCNAgent": 15000,
                  "evaluations/MarketMakerAgent": 24000, "evaluations/ArbitrageAgent": 12000, "class/fcn_buy": 12000,
                  "class/fcn_sell": 12000, "class/fcn_normal_margin": 9000, "class/mm_base_from_quotes": 6000,
                  "class/mm_base_from_market_price": 3000, "class/arb_inside_threshold": 4500,
-                 "class/arb_outside_threshold_index_cheap": 2400, "class/arb_outside_threshold_index_rich": 2400,
+                 "class/arb_gap_equals_threshold": 700, "class/arb_outside_threshold_index_cheap": 2400, "class/arb_outside_threshold_index_rich": 2400,
                  "class/arb_near_threshold": 3000, "orders_checked_wellformed": 90000,
                  "class/share_choice_checked": 9000},
 }
@@ -503,7 +503,7 @@ def eval_arb(res, world, rng):
     if gap == 0:
         res.count("arb_zero_gap(skipped)")
         return
-    factor = rng.choice([0.5, 0.9, 0.999, 0.999999, 1.000001, 1.001, 1.1, 2.0, 10.0])
+    factor = rng.choice([0.5, 0.9, 0.999, 0.999999, 1.0, 1.000001, 1.001, 1.1, 2.0, 10.0])
     thr = abs(gap) * factor          # gap > thr  <=>  factor < 1
     v = rng.choice([1, 2, 7])
     a = ArbitrageAgent(agent_id=rng.randint(0, 50), prng=RecordingRandom(1), simulator=world.sim, name="arb")
@@ -536,6 +536,13 @@ def eval_arb(res, world, rng):
     if not wellformed(res, a, orders, "ArbitrageAgent"):
         return
     wit["orders"] = [repr(o) for o in orders]
+    if factor == 1.0 and thr == abs(gap) and stopped is None:
+        # the gap equals the threshold exactly (the difference of two floats is exact in either direction):
+        # "differ by more than its threshold" is false, the agent must stay silent
+        res.count("class/arb_gap_equals_threshold")
+        if orders:
+            res.violation("arb", "arbitrage-agent-acted-inside-its-threshold", dict(wit, gap_equals_threshold=True))
+        return
     if abs(abs(gap) - thr) <= 1e-9 * abs(gap) and factor not in (0.999999, 1.000001):
         res.count("arb_on_threshold(skipped)")
         return
